@@ -473,4 +473,32 @@ theorem remove_remove (h a b : RuntimeResources) :
 example : let h : RuntimeResources := { Cpu := 100#64, Memory := 5#64, Millis := 0#64 }
           (h.Remove { Cpu := 30#64, Memory := 9#64, Millis := 1#64 }) = { Cpu := 70#64, Memory := 0#64, Millis := 0#64 } := by decide
 
+/-! ## `smallerLimit` is a strict order with 0 on top -/
+
+/-- the regenerated `smallerLimit` is a strict order on limits with 0 (= unlimited) as the greatest
+element: irreflexive, asymmetric, transitive — so "the tighter limit" is well defined however many
+contexts are nested -/
+theorem smallerLimit_irrefl (n : BitVec 64) : smallerLimit n n = false := by
+  cases h : smallerLimit n n
+  · rfl
+  · have := (sl_nat n n).mp h; omega
+
+theorem smallerLimit_asymm (n m : BitVec 64) (h : smallerLimit n m = true) : smallerLimit m n = false := by
+  cases h' : smallerLimit m n
+  · rfl
+  · have a := (sl_nat n m).mp h; have b := (sl_nat m n).mp h'; omega
+
+theorem smallerLimit_trans (a b c : BitVec 64) (h1 : smallerLimit a b = true) (h2 : smallerLimit b c = true) :
+    smallerLimit a c = true := by
+  have x := (sl_nat a b).mp h1; have y := (sl_nat b c).mp h2
+  exact (sl_nat a c).mpr (by omega)
+
+theorem unlimited_is_top (n : BitVec 64) (h : n ≠ 0#64) : smallerLimit n 0#64 = true ∧ smallerLimit 0#64 n = false := by
+  have hn : n.toNat ≠ 0 := fun c => h (BitVec.eq_of_toNat_eq (by simpa using c))
+  constructor
+  · exact (sl_nat n 0#64).mpr ⟨hn, Or.inl rfl⟩
+  · cases h' : smallerLimit 0#64 n
+    · rfl
+    · have := (sl_nat 0#64 n).mp h'; simp at this
+
 end GoluaVerif.Props.C07
